@@ -484,7 +484,7 @@ def desugar(F):
 _IT = 'std::iter::Iterator::'
 FUSE_ADAPTORS = {_IT + 'map': 'map', _IT + 'filter': 'filter', _IT + 'filter_map': 'filter_map', _IT + 'inspect': 'inspect'}
 FUSE_CONSUMERS = {_IT + 'for_each': 'for_each', _IT + 'try_for_each': 'try_for_each', _IT + 'any': 'any', _IT + 'all': 'all',
-                  _IT + 'find_map': 'find_map', _IT + 'fold': 'fold'}
+                  _IT + 'find_map': 'find_map', _IT + 'fold': 'fold', _IT + 'collect': 'collect'}
 
 
 def _def_call_block(b, op):
@@ -516,10 +516,12 @@ def fuse_iterators(F):
             cons = FUSE_CONSUMERS.get(_callee_fn(t))
             if cons is None:
                 continue
-            if len(t['args']) != (3 if cons == 'fold' else 2):
+            if len(t['args']) != (3 if cons == 'fold' else 1 if cons == 'collect' else 2):
                 continue
-            cclo = _closure_of(F, b, t['args'][-1])
-            if cclo is None:
+            cclo = _closure_of(F, b, t['args'][-1]) if cons != 'collect' else None
+            if cclo is None and cons != 'collect':
+                continue
+            if cons == 'collect' and not re.match(r'^(?:std|alloc)::vec::Vec<', b.locals[t['dst']['l']]['ty']):
                 continue
             # walk back through fusable adaptors
             stages, dead = [], []
@@ -541,8 +543,11 @@ def fuse_iterators(F):
                 src = at['args'][0]
             if src['k'] == 'const' or src['p']['proj']:
                 continue
-            want = {'for_each': 2, 'try_for_each': 2, 'any': 2, 'all': 2, 'find_map': 2, 'fold': 3}[cons]
-            if cclo.argc != want:
+            want = {'for_each': 2, 'try_for_each': 2, 'any': 2, 'all': 2, 'find_map': 2, 'fold': 3, 'collect': 0}[cons]
+            if cons == 'collect':
+                if not stages or not any(k in ('map', 'filter_map') for k, _, _ in stages):
+                    continue        # a bare `iter.collect()` builds the collection from the items as they are: nothing to unfold
+            elif cclo.argc != want:
                 continue
             dst, target = t['dst'], t['target']
             dty = b.locals[dst['l']]['ty']
@@ -561,6 +566,8 @@ def fuse_iterators(F):
             def use(place):
                 return {'k': 'use', 'ops': [{'k': 'move', 'p': place}]}
             first = stages[0][2] if stages else cclo
+            if first is None:
+                continue
             item_ty = first.locals[3 if (cons == 'fold' and not stages) else 2]['ty']
             if stages and stages[0][0] in ('filter', 'inspect'):
                 item_ty = re.sub(r'^&', '', item_ty)
@@ -584,6 +591,8 @@ def fuse_iterators(F):
             elif cons == 'fold':
                 acc = newlocal(dty)
                 erv = [dict(pos, dst=dst, rv=use(acc))]
+            elif cons == 'collect':
+                erv = []
             else:
                 erv = [dict(pos, dst=dst, rv={'k': 'use', 'ops': [{'k': 'const', 'ty': '()', 'dbg': '()'}]})]
             E = newblock(erv, dict(pos, k='goto', target=target))
@@ -629,8 +638,14 @@ def fuse_iterators(F):
                     b.blocks[nb_]['term'] = dict(pos, k='switch', on={'k': 'move', 'p': d2}, targets=[[0, H]], otherwise=nxt, fused=True)
                     cur_block, cur_val, cur_ty = nxt, y, pl
             cop = t['args'][-1]
-            crty = cclo.locals[0]['ty']
-            if cons == 'fold':
+            crty = cclo.locals[0]['ty'] if cclo is not None else None
+            if cons == 'collect':
+                rv_ = newlocal('&mut ' + dty)
+                b.blocks[cur_block]['stmts'].append(dict(pos, dst=rv_, rv={'k': 'ref', 'mut': True, 'p': dst}))
+                u_ = newlocal('()')
+                b.blocks[cur_block]['term'] = dict(pos, k='call', func={'k': 'const', 'fn': 'std::vec::Vec::<T, A>::push', 'dbg': 'fused collect'},
+                                                   args=[{'k': 'move', 'p': rv_}, {'k': 'move', 'p': cur_val}], dst=u_, target=H, fused=True)
+            elif cons == 'fold':
                 tmp, nb_ = call_closure(cur_block, cop, cclo, [{'k': 'move', 'p': acc}, {'k': 'move', 'p': cur_val}], crty)
                 b.blocks[nb_]['stmts'].append(dict(pos, dst=acc, rv=use(tmp)))
                 b.blocks[nb_]['term'] = dict(pos, k='goto', target=H)
@@ -655,7 +670,10 @@ def fuse_iterators(F):
             # entry: the consumer call becomes `[acc = init;] goto H`; the adaptor calls become plain gotos
             if cons == 'fold':
                 b.blocks[bi]['stmts'].append(dict(pos, dst=acc, rv={'k': 'use', 'ops': [t['args'][1]]}))
-            b.blocks[bi]['term'] = dict(pos, k='goto', target=H, fused=cons)
+            if cons == 'collect':
+                b.blocks[bi]['term'] = dict(pos, k='call', func={'k': 'const', 'fn': 'std::vec::Vec::<T>::new', 'dbg': 'fused collect'}, args=[], dst=dst, target=H, fused=cons)
+            else:
+                b.blocks[bi]['term'] = dict(pos, k='goto', target=H, fused=cons)
             for db in dead:
                 at = b.blocks[db]['term']
                 b.blocks[db]['term'] = dict(pos, k='goto', target=at['target'], fused='adaptor')
